@@ -44,14 +44,25 @@ Definition cli_default_enable (reg : list checker) : list string :=
 
 Record cli_flags := { cf_all : bool; cf_enable : option string; cf_disable : option string }.
 
-(* parseArgs: defaults, then strings.Split *)
+(* strings.Split + strings.TrimSpace on every element: the CLIs' splitKeys and the analyzer's splitValues *)
+Definition split_values (s : string) : list string := map trim_space (split_on comma s).
+
+(* parseArgs: defaults, then splitKeys *)
 Definition cli_enable_keys (reg : list checker) (f : cli_flags) : list string :=
-  split_on comma (match cf_enable f with Some s => s | None => join_with comma (cli_default_enable reg) end).
+  split_values (match cf_enable f with Some s => s | None => join_with comma (cli_default_enable reg) end).
 Definition cli_disable_keys (f : cli_flags) : list string :=
-  split_on comma (match cf_disable f with Some s => s | None => "" end).
+  split_values (match cf_disable f with Some s => s | None => "" end).
 
 Definition cli_selected (reg : list checker) (f : cli_flags) (c : checker) : bool :=
   filter_selected (cf_all f) (cli_enable_keys reg f) (cli_disable_keys f) c.
+
+(* before the repair parseArgs used strings.Split only: blanks around an element were part of the key *)
+Definition cli_enable_keys_prefix (reg : list checker) (f : cli_flags) : list string :=
+  split_on comma (match cf_enable f with Some s => s | None => join_with comma (cli_default_enable reg) end).
+Definition cli_disable_keys_prefix (f : cli_flags) : list string :=
+  split_on comma (match cf_disable f with Some s => s | None => "" end).
+Definition cli_selected_prefix (reg : list checker) (f : cli_flags) (c : checker) : bool :=
+  filter_selected (cf_all f) (cli_enable_keys_prefix reg f) (cli_disable_keys_prefix f) c.
 
 Inductive init_result :=
 | InitOk (constructed : list checker)
@@ -77,7 +88,6 @@ Definition cli_init (ctor_ok : checker -> bool) (reg : list checker) (f : cli_fl
 Record an_flags := { af_all : bool; af_enable : option string; af_disable : option string }.
 Definition an_default_enable : string := "#diagnostic,#style,#security".
 Definition an_default_disable : string := "<default>".
-Definition split_values (s : string) : list string := map trim_space (split_on comma s).
 Definition an_disable_arg (f : an_flags) : string :=
   let d := match af_disable f with Some s => s | None => an_default_disable end in
   if String.eqb d "<default>" then
@@ -101,7 +111,8 @@ Definition spec_selected (all : bool) (en dis : list string) (c : checker) : boo
 
 (* what registration guarantees (linter/helpers.go validIdentRE: ^\w+$ for names and tags) *)
 Definition valid_ident (s : string) : bool :=
-  negb (String.eqb s "") && negb (has_prefix "#" s) && negb (contains_char comma s).
+  negb (String.eqb s "") && negb (has_prefix "#" s) && negb (contains_char comma s)
+  && String.eqb (trim_space s) s.
 Definition valid_checker (c : checker) : bool :=
   valid_ident (cname c) && forallb valid_ident (ctags c).
 
